@@ -930,6 +930,12 @@ def degrade_fn(g, name, ordinal, level=1):
     inner = re.sub(re.escape(GOPEN) + r'.*?' + re.escape(GCLOSE), '', g[body:end + 1], flags=re.S)
     # the attribute goes in front of the item (before `pub`, other attributes stay where they are)
     ls = g.rfind('\n', 0, start) + 1
+    gc = g.rfind(GCLOSE, 0, start)
+    if gc >= 0 and gc + len(GCLOSE) > ls:
+        ls = gc + len(GCLOSE)          # never inside an inserted region (an attribute inserted on the previous line)
+    qm = re.search(r'(?:pub(?:\([a-z]+\))?\s+)?(?:const\s+)?(?:unsafe\s+)?$', g[ls:start])
+    if qm:
+        ls = ls + qm.start()
     sig = g[ls:body]
     if level >= 2:
         # level 2: the contract itself no longer fits the signature (a renamed parameter): drop it too.  The function then
